@@ -7,3 +7,10 @@ pub mod uf;
 #[cfg(kani)]
 #[path = "../../common/stubs.rs"]
 pub mod stubs;
+
+#[cfg(kani)]
+mod c03_root;
+#[cfg(kani)]
+mod c03_encoding;
+#[cfg(kani)]
+mod c03_scratch;
